@@ -215,4 +215,4 @@ def main():
 
 
 if __name__ == "__main__":
-    main()
+    O.run_main(main)
